@@ -193,14 +193,14 @@ def layout_background_layer(box, page, resolution, image, size, clip, repeat,
 
     repeat_x, repeat_y = repeat
 
-    if repeat_x == 'round':
+    if repeat_x == 'round' and image_width:
         n_repeats = max(1, round(positioning_width / image_width))
         new_width = positioning_width / n_repeats
         position_x = 0  # Ignore background-position for this dimension
         if repeat_y != 'round' and size[1] == 'auto':
             image_height *= new_width / image_width
         image_width = new_width
-    if repeat_y == 'round':
+    if repeat_y == 'round' and image_height:
         n_repeats = max(1, round(positioning_height / image_height))
         new_height = positioning_height / n_repeats
         position_y = 0  # Ignore background-position for this dimension
